@@ -27,10 +27,10 @@ theorem Sim.emit {tick : Bool} {w w' : World} {ev : Ev} (hout : w'.out = w.out)
 theorem stepOp_sim {tick : Bool} {w : World} (hw : WheelInv w) (hs : Sim tick w) (self : Nat) (op : Op)
     (halive : isDead w self = false) : Sim tick (stepOp w self op).w := by
   cases op with
-  | co fn delay tag =>
+  | co fn delay tag fp =>
     unfold stepOp
     simp only [halive, Bool.false_eq_true, if_false]
-    exact Sim.emit (w := w) rfl (sim_co hw hs self fn delay tag halive)
+    exact Sim.emit (w := w) rfl (sim_co hw hs self fn delay tag fp halive)
   | rmh tag => exact Sim.emit (removeByHandle_frame w _).1 (sim_rmh hw hs self tag)
   | rmn fn => exact Sim.emit (removeByName_frame w self fn).1 (sim_rmn hw hs self fn halive)
   | fh tag => exact Sim.emit rfl (sim_fh hw hs self tag)
@@ -51,7 +51,7 @@ theorem stepOp_sim {tick : Bool} {w : World} (hw : WheelInv w) (hs : Sim tick w)
 theorem stepOp_alive {w : World} (self : Nat) (op : Op) (halive : isDead w self = false)
     (hstop : (stepOp w self op).stop = false) : isDead (stepOp w self op).w self = false := by
   cases op with
-  | co fn delay tag =>
+  | co fn delay tag fp =>
     unfold stepOp
     simp only [halive, Bool.false_eq_true, if_false]
     exact halive
@@ -109,21 +109,26 @@ theorem fireOne_sim (sc : Scripts) {w : World} (hw : WheelInv w) (hs : Sim true 
   unfold fireOne
   by_cases hdead : isDead (setSlot w (slotOf w.cot) rest) cop.c.owner = true
   · rw [if_pos hdead]
-    -- dropped silently: the oracle keeps it as an entry of a destructed owner whose time has come
-    refine ⟨hs.bad, hs.dead, hs.handles, hs.inTick, hs.allLt, hs.pendLt, hs.pendSorted, ?_, ?_⟩
-    · intro c hc
-      exact hs.wheelPend c ((inWheel_remove hw hcum (by simp) c).1 hc).1
-    · intro p hp
-      rcases hs.pendWheel p hp with ⟨c, hc1, hc2⟩ | hxx
-      · by_cases hcc : c = cop.c
-        · right
-          subst hcc
-          refine ⟨?_, ?_⟩
-          · rw [← hc2]; exact hdead
-          · rw [← hc2]; simp only [toPend, setSlot_cot]; omega
-        · left
-          exact ⟨c, (inWheel_remove hw hcum (by simp) c).2 ⟨hc1, hcc⟩, hc2⟩
-      · exact Or.inr hxx
+    -- dropped (silently, or with the "owner destructed" error of a function pointer): the oracle keeps it as
+    -- an entry of a destructed owner whose time has come
+    have hdrop : Sim true (setSlot w (slotOf w.cot) rest) := by
+      refine ⟨hs.bad, hs.dead, hs.handles, hs.inTick, hs.allLt, hs.pendLt, hs.pendSorted, ?_, ?_⟩
+      · intro c hc
+        exact hs.wheelPend c ((inWheel_remove hw hcum (by simp) c).1 hc).1
+      · intro p hp
+        rcases hs.pendWheel p hp with ⟨c, hc1, hc2⟩ | hxx
+        · by_cases hcc : c = cop.c
+          · right
+            subst hcc
+            refine ⟨?_, ?_⟩
+            · rw [← hc2]; exact hdead
+            · rw [← hc2]; simp only [toPend, setSlot_cot]; omega
+          · left
+            exact ⟨c, (inWheel_remove hw hcum (by simp) c).2 ⟨hc1, hcc⟩, hc2⟩
+        · exact Or.inr hxx
+    split
+    · exact Sim.emit (w := setSlot w (slotOf w.cot) rest) (ev := .errFpDead) rfl hdrop
+    · exact hdrop
   · rw [if_neg hdead]
     have hdead' : isDead w cop.c.owner = false := by
       have : isDead (setSlot w (slotOf w.cot) rest) cop.c.owner = isDead w cop.c.owner := rfl
